@@ -62,6 +62,8 @@ func impostor(c *Conf) {
 		announce, serve = f1Field, &own
 	case "plaintext":
 		announce, serve = f1Field, nil
+	case "nocert-plaintext": // a plugin that ignores PLUGIN_CLIENT_CERT altogether
+		announce, serve = "", nil
 	}
 	pool := x509.NewCertPool()
 	pool.AppendCertsFromPEM([]byte(os.Getenv("PLUGIN_CLIENT_CERT")))
